@@ -1,6 +1,7 @@
 import SmtpV.Basic
 import SmtpV.Model.DataReader
 import SmtpV.Spec.DataMon
+import Driver.Conv
 /-!
 Line-protocol driver: runs the *same definitions the theorems are about* on the case
 lines the Go harness receives.  One case per line, one answer per line.
@@ -66,6 +67,7 @@ def runCase (line : String) : String :=
   match f.head? with
   | some "dr" => probeDR f
   | some "mon" => runMon f
+  | some "conv" => Conv.probe f
   | some p => "DRIVER-UNKNOWN-PROBE " ++ p
   | none => "DRIVER-EMPTY"
 
